@@ -243,5 +243,21 @@ pub fn corpus() -> Vec<(Cfg, Vec<Op>)> {
     }
     // D12-adjacent: longest legal name
     v.push((Cfg::plain(), vec![Op::Add { name: "n".repeat(65536), size: 3, src: vec![1, 2, 3] }, Op::Finalize]));
+    // interleaving shapes with a LARGE foreign block between the runs of a file (one compression block,
+    // and more than the repair cache): a file of three runs with a small and a large foreign block in
+    // between; sizes that only exist at production constants are exercised at production constants
+    for (li, large) in [CONSTS.block, 2 * CONSTS.block + 1].into_iter().enumerate() {
+        let layers = [L_COMP, 0u8][li];
+        let mut ops = vec![Op::Start("x".into()), Op::Append { id: 0, size: 1000, src: rng.bytes(1000, 3) }, Op::Start("y".into()),
+            Op::Append { id: 1, size: 10, src: rng.bytes(10, 3) }, Op::Append { id: 0, size: 2000, src: rng.bytes(2000, 1) },
+            Op::Append { id: 1, size: large as u64, src: rng.bytes(large, 2) }, Op::Append { id: 0, size: 3000, src: rng.bytes(3000, 3) }];
+        if li == 1 {
+            // the same with whole files added in between
+            ops.push(Op::Add { name: "z".into(), size: 7, src: rng.bytes(7, 3) });
+            ops.push(Op::Append { id: 0, size: 11, src: rng.bytes(11, 3) });
+        }
+        ops.extend([Op::End(0), Op::End(1), Op::Finalize]);
+        v.push((Cfg::make(&mut rng, layers), ops));
+    }
     v
 }
